@@ -14,3 +14,7 @@ reg("C01", "property-based differential testing vs num-bigint + algebraic identi
 reg("C02", "property-based testing by construction a=q*b+r, differential vs num-bigint (proptest)",
     "Dividends constructed from chosen divisor/quotient/remainder classes (word, double word incl. powers of two, multi-word on both sides of the schoolbook/divide-and-conquer switch, top-word-correction dividends), all signs, through every division form incl. Euclidean, assign, mixed, primitive, is_multiple_of and ConstDivisor; each result checked against the division identity evaluated in num-bigint; zero divisors must panic with the divide-by-zero message.",
     TRUST)
+
+reg("C03", "property-based testing against an exact-arithmetic rounding-contract oracle (proptest, 60 mode×base instantiations)",
+    "Context add/sub/mul/div/sqr/cubic/inv/sqrt and the FBig operators in 6 modes × 5 bases on operands aimed at the alignment branches (exponent gaps relative to p, cancellation, carries, exact quotients, tie radicands); the six clauses of the documented contract (Exact⇔equal, <=p+1 digits, representable⇒exact, error <1 ulp / <=1/2 ulp, side, AddOne/SubOne direction) are evaluated with integer arithmetic only; sqrt is decided by comparing squares.",
+    TRUST + " The contract checked is the documented faithful-rounding contract, not correct rounding to p digits.")
